@@ -140,13 +140,14 @@ def c14_r2(ctx: Ctx, rule):
     if not chain:
         raise AnalysisError("no __init__ in the MRO of ProvElement")
     stored = False
+    bundle_field = ctx.field_named(M + ".ProvRecord", "bundle", "_bundle")  # the field the public `bundle` property returns
     for iq in chain:
         ifi = ctx.fn(iq)
         bp = ifi.params[1] if len(ifi.params) > 1 else None
         rebound = [n for n in walk_function(ifi.node) if isinstance(n, (ast.Assign, ast.AugAssign, ast.AnnAssign, ast.NamedExpr))
                    and any(isinstance(x, ast.Name) and x.id == bp for t in (n.targets if isinstance(n, ast.Assign) else [n.target]) for x in ast.walk(t))]
         forwards = [c for c in calls_in(ifi.node) if call_name(c) == "__init__" and any(isinstance(a, ast.Name) and a.id == bp for a in list(c.args) + [k.value for k in c.keywords])]
-        stores = [n for n in walk_function(ifi.node) if isinstance(n, ast.Assign) and isinstance(n.value, ast.Name) and n.value.id == bp and any(isinstance(t, ast.Attribute) and "bundle" in t.attr for t in n.targets)]
+        stores = [n for n in walk_function(ifi.node) if isinstance(n, ast.Assign) and isinstance(n.value, ast.Name) and n.value.id == bp and any(isinstance(t, ast.Attribute) and t.attr == bundle_field for t in n.targets)]
         stored = stored or bool(stores)
         ok = bp is not None and not rebound and (forwards or stores)
         res.ob("%s: the bundle parameter `%s` is never rebound and is %s: %s" % (short(iq), bp, "stored in the field" if stores else "handed to the next __init__", bool(ok)))
@@ -160,7 +161,7 @@ def c14_r2(ctx: Ctx, rule):
     gf = ctx.fn(gq)
     tests = []
     for n in walk_function(gf.node):
-        if isinstance(n, ast.Compare) and isinstance(n.ops[0], (ast.IsNot, ast.Is)) and isinstance(n.comparators[0], ast.Constant) and n.comparators[0].value is None and isinstance(n.left, ast.Attribute) and n.left.attr in ("bundle", "_bundle"):
+        if isinstance(n, ast.Compare) and isinstance(n.ops[0], (ast.IsNot, ast.Is)) and isinstance(n.comparators[0], ast.Constant) and n.comparators[0].value is None and isinstance(n.left, ast.Attribute) and n.left.attr in ("bundle", bundle_field):
             if isinstance(n.ops[0], ast.IsNot):
                 tests.append(n)
             else:
